@@ -280,10 +280,39 @@ var c13LieVarsCompound = func() []c13LieVar {
 	return out
 }()
 
+// c13LieVarsHostile is a fourth block: the VALUE of a string-like primitive (the universal string and time types and
+// context-tagged primitives such as GeneralName alternatives: rfc822Name, dNSName, URI, iPAddress) replaced by a
+// string from a fixed list of syntactically hostile values - dangling escapes and quotes, empty labels, lone
+// separators, unbalanced brackets, control and high octets - re-encoded with consistent lengths. The text parsers
+// behind the DER layer (mailbox, domain, URI, IP and time syntax) are consumers of hostile bytes like any other.
+const c13LieContent = 400
+
+var c13HostileStrings = []string{"\\", "\\@\\", "a\\", "abc\\", "a\\@b.c\\", "\"", "\"a", "\"a\\", "a@", "@", "@b", "a@b@", "a@[", ".", "..", "a..b", "*.", "*", ".a.", "%", "%zz", ":",
+	"http://", "http://[", "http://[::1", "//", "a://b:c", "[::1", "\x00", "a\x00b", "\xff\xff\xff\xff", "\x80", " ", "\n", "990101000000", "9901010000Z", "19990101000000+", "-"}
+
+var c13LieVarsHostile = func() []c13LieVar {
+	var out []c13LieVar
+	for k := range c13HostileStrings {
+		out = append(out, c13LieVar{c13LieContent, k, fmt.Sprintf("value:=%q", c13HostileStrings[k])})
+	}
+	return out
+}()
+
+func c13StringLike(t *sim.TLV) bool {
+	if t.Children != nil || t.Tag&0x20 != 0 {
+		return false
+	}
+	switch t.Tag {
+	case 0x0c, 0x13, 0x14, 0x16, 0x1a, 0x1b, 0x1c, 0x1e, 0x17, 0x18, 0x12:
+		return true
+	}
+	return t.Tag&0xc0 == 0x80
+}
+
 func (a *c13Art) lieItems() int {
 	n := a.lieElems()*len(c13LieVars) + len(a.byz) + a.byzN + a.lieElems()*len(c13LieVarsExtra)
 	if a.root != nil {
-		n += a.lieElems() * len(c13LieVarsCompound)
+		n += a.lieElems() * (len(c13LieVarsCompound) + len(c13LieVarsHostile))
 	}
 	return n
 }
@@ -330,8 +359,17 @@ func (a *c13Art) lie(it int) ([]byte, string) {
 				// third block
 				x -= ne * nx
 				nc := len(c13LieVarsCompound)
-				if a.root == nil || x >= ne*nc {
+				if a.root == nil {
 					return nil, ""
+				}
+				if x >= ne*nc {
+					// fourth block
+					x -= ne * nc
+					nh := len(c13LieVarsHostile)
+					if x >= ne*nh {
+						return nil, ""
+					}
+					return a.lieVariant(x/nh, c13LieVarsHostile[x%nh])
 				}
 				return a.lieVariant(x/nc, c13LieVarsCompound[x%nc])
 			}
@@ -364,6 +402,14 @@ func (a *c13Art) lieVariant(el int, v c13LieVar) ([]byte, string) {
 		}
 		var der []byte
 		switch v.kind {
+		case c13LieContent:
+			c := a.root.Clone()
+			t := c.Flatten()[el]
+			if !c13StringLike(t) {
+				return nil, ""
+			}
+			t.Content = []byte(c13HostileStrings[v.k%len(c13HostileStrings)])
+			der = c.Encode()
 		case c13LieRetag:
 			c := a.root.Clone()
 			t := c.Flatten()[el]
